@@ -314,6 +314,17 @@ theorem api_tree_value_num (d : Dialect) (g : Grammar) (hg : coreCompat g = true
     rw [h1, evalG_render env d e hcw.1]
     exact build_num_eval env u e hu hb
 
+/-- the same statement about `emit` (= `render ∘ lower`, the compiler's full pipeline including
+    the compile-time rewriting of the LIKE-based string operators, which is the identity on
+    the fragment) -/
+theorem api_tree_value_bool_emit (d : Dialect) (g : Grammar) (hg : coreCompat g = true)
+    (hpt : prefixNoTern g) (env : String → Val) (u : U) (e : SaExpr)
+    (hu : BoolU u = true) (hn : noIsGen u = true) (hb : build u = some e) :
+    (parse g (emit d e).print).map (fun t => truth (evalG (stdI env) t).scalar)
+      = some (evalBoolU env u) := by
+  rw [emit_core d e (build_core_WG u e (Or.inr hu) hb).1]
+  exact api_tree_value_bool d g hg hpt env u e hu hn hb
+
 theorem api_tree_value_bool_sqlite (env : String → Val) (u : U) (e : SaExpr)
     (hu : BoolU u = true) (hn : noIsGen u = true) (hb : build u = some e) :
     (parse sqlite (render .sqlite true e).print).map (fun t => truth (evalG (stdI env) t).scalar)
